@@ -36,7 +36,12 @@ func c09History(r *run, g *rng, kind int, tagW, minW int, probeLvl int, pc uintp
 		n = 0
 	}
 	for i := 0; i < n; i++ {
-		switch g.intn(10) {
+		switch g.intn(11) {
+		case 10: // a record whose last attribute is a group holding nothing but unset slots (JSON: the object stays empty)
+			c := &encCase{format: []string{"j", "j", "l", "c"}[g.intn(4)], lvl: 4, ts: g.encTime(), msg: "ends in an empty group", tagW: tagW, minW: minW, name: "h12",
+				attrs: []gattr{{key: "a", val: g.genScalar(true)}, {key: "zz", isGroup: true, val: gval{kind: "group", items: []gattr{{nilAttr: true}, {nilAttr: true}}[:1+g.intn(2)]}}}}
+			encRun(r, "C09", c)
+			desc = append(desc, "record ending in a group of unset slots only")
 		case 9: // a record one of whose values panics while it is rendered (the caller recovers): the
 			// half-used formatting context must not come back
 			rec := &recorder{}
